@@ -16,6 +16,7 @@
 from __future__ import annotations
 
 import copy
+import math
 import os
 import random
 import tempfile
@@ -644,6 +645,151 @@ def section_translation(ck, rng, record, kbl_builder):
                         break
             except Exception as e:
                 record("dates-translation:raises", f"dates {dates}: raises {type(e).__name__}: {str(e)[:140]}", rep, (n, 1, 0))
+
+
+# ----------------------------------------------------------------------------- keep_branch_lengths on non-clock-like trees
+def nonclock_case(rng):
+    """a Newick whose branch lengths are NOT clock-consistent with the (heterochronous) dates: random lengths,
+    clock-consistent lengths rounded to one decimal, zero-length branches, lengths in substitution units"""
+    n = rng.randrange(3, 9)
+    t = G.random_flip(G.random_topology(n, rng), rng)
+    sch = G.date_schemes(n, rng)
+    dates = sch[rng.choice(["ages", "calendar", "forward-max0", "ages-decimal", "isochronous", "mixed-signs"])]
+    mode = rng.choice(["random", "rounded", "zeros", "substitutions"])
+    edges, root, below = G.independent_index(t, n)
+    leaf = G.expected_leaf_heights(dates)
+    if mode == "rounded":
+        hts = valid_heights(t, dates, rng)
+        H = leaf + hts
+        lengths = {c: round(H[p] - H[c], 1) for p, c in edges}
+    elif mode == "substitutions":
+        lengths = {c: rng.uniform(0.0005, 0.05) for _p, c in edges}
+    else:
+        lengths = {c: rng.uniform(0.0, 3.0) for _p, c in edges}
+        if mode == "zeros":
+            for c in rng.sample(sorted(lengths), max(1, len(lengths) // 3)):
+                lengths[c] = 0.0
+    # what heights_from_branch_lengths is documented to do: node = max over children of child + max(eps, length)
+    H = {i: leaf[i] for i in range(n)}
+    children = {}
+    for p, c in edges:
+        children.setdefault(p, []).append(c)
+    for v in range(n, 2 * n - 1):
+        H[v] = max(H[c] + max(1e-6, lengths[c]) for c in children[v])
+    return {"type": "kbl-nonclock", "tree": G.paren(t), "dates": dates, "mode": mode, "n": n,
+            "lengths": {str(k): v for k, v in lengths.items()}, "heights": [H[i] for i in range(2 * n - 1)]}
+
+
+def run_nonclock(case, kbl_newick):
+    """-> [(clause, what)]: every route that accepts keep_branch_lengths must return a VALID point of the domain"""
+    from torchtree.evolution.tree_model import ReparameterizedTimeTreeModel as R, TimeTreeModel as M
+    from torchtree.evolution.tree_model_flexible import FlexibleTimeTreeModel as F
+
+    t = G.parse_paren(case["tree"])
+    n, dates, Hexp = case["n"], case["dates"], case["heights"]
+    newick = kbl_newick(t, n, {int(k): v for k, v in case["lengths"].items()})
+    leaf = G.expected_leaf_heights(dates)
+    base = {"id": "tree", "newick": newick, "taxa": taxa_json(dates), "keep_branch_lengths": True}
+    builds = {
+        "ReparameterizedTimeTreeModel[ratios]": lambda: R.from_json(dict(base, type="ReparameterizedTimeTreeModel",
+            ratios=pjson("r", [0.5] * (n - 2)), root_height=pjson("h", [max(leaf) + 1.0])), {}),
+        "ReparameterizedTimeTreeModel[shifts]": lambda: R.from_json(dict(base, type="ReparameterizedTimeTreeModel",
+            shifts=pjson("s", [1.0] * (n - 1))), {}),
+        "TimeTreeModel": lambda: M.from_json(dict(base, type="TimeTreeModel", internal_heights=pjson("hh", [max(leaf) + 1.0] * (n - 1))), {}),
+        "FlexibleTimeTreeModel": lambda: F.from_json(dict(base, type="FlexibleTimeTreeModel",
+            internal_heights=pjson("hh", [max(leaf) + 1.0] * (n - 1))), {}),
+    }
+    bad = []
+    S = max(1.0, max(abs(v) for v in Hexp))
+    for name, build in builds.items():
+        try:
+            m = build()
+            H = m.node_heights.detach().tolist()
+            probs = [w for _c, w in property_on(m, dates)]
+            if not all(math.isfinite(v) for v in H):
+                probs.append(f"node heights {H}")
+            elif any(abs(H[i] - Hexp[i]) > 1e-9 * S for i in range(n, 2 * n - 1)):
+                probs.append(f"internal heights {H[n:]} but max over children of (child + max(1e-6, branch)) gives {Hexp[n:]}")
+            if hasattr(m, "transform"):
+                x = m._internal_heights.tensor.detach().tolist()
+                if name.endswith("[ratios]"):
+                    if any(not (-1e-12 <= r <= 1 + 1e-12) for r in x[:-1]) or not (x[-1] >= max(leaf) - 1e-12):
+                        probs.append(f"parameters outside the domain: ratios {x[:-1]}, root height {x[-1]} (oldest tip {max(leaf)})")
+                elif any(not (v >= -1e-12) for v in x):
+                    probs.append(f"negative increments {x}")
+        except Exception as e:
+            probs = [f"raises {type(e).__name__}: {str(e)[:140]}"]
+        for w in probs[:1]:
+            bad.append((name, w))
+    return bad, newick
+
+
+def section_kbl_nonclock(ck, rng, record, kbl_newick):
+    for _ in range(120 if ck.thorough() else 40):
+        case = nonclock_case(rng)
+        bad, newick = run_nonclock(case, kbl_newick)
+        ck.case(key=("kbl-nonclock", newick, tuple(case["dates"])), bucket=f"keep_branch_lengths/non-clock/{case['mode']}",
+                sample=dict(case, newick=newick) if case["n"] == 4 and len(ck.samples) < 6 else None)
+        for name, w in bad:
+            record(f"keep_branch_lengths:non-clock:{name}", f"{newick} with dates {case['dates']} ({case['mode']} branch lengths) read with "
+                   f"keep_branch_lengths by {name}: {w}", case, (case["n"], 1, 0))
+
+
+# ----------------------------------------------------------------------------- smooth maximum at large height differences
+def section_smooth_extreme(ck, rng, record):
+    """DifferenceNodeHeightTransform with k > 0 where k·(height difference) is far beyond the exp range, in both child
+    orders, float64 and float32: heights finite and valid, equal to the exact smooth maximum (mpmath), inverse returns
+    the increments"""
+    import mpmath as mp
+
+    from torchtree.evolution.tree_height_transform import DifferenceNodeHeightTransform
+
+    mp.mp.dps = 50
+    shapes = [((0, 1), 2), (2, (0, 1)), ((0, 2), 1), (((0, 1), 2), 3), (3, ((0, 1), 2)), ((0, 1), (2, 3))]
+    for dt, big, tol in ((torch.float64, [100.0, 800.0, 5000.0], 1e-12), (torch.float32, [20.0, 80.0, 400.0], 2e-6)):
+        for t in shapes:
+            n = G.ntips(t)
+            for k in (1.0, 10.0, 100.0):
+                for old in range(n):
+                    ages = [0.0] * n
+                    ages[old] = rng.choice(big)
+                    if n > 3:
+                        ages[(old + 1) % n] = rng.choice([0.0, 1.5])
+                    x = [rng.choice([1e-6, 0.25, 1.0, 3.0]) for _ in range(n - 1)]
+                    rep = {"type": "smooth-extreme", "tree": G.paren(t), "dates": ages, "x": x, "k": k, "dtype": str(dt)}
+                    ck.case(key=("smooth-extreme", G.paren(t), tuple(ages), k, str(dt)), bucket=f"difference/smooth/k·Δ>exp-range/{dt}")
+                    try:
+                        m = G.make_reparam(t, ages, torch.tensor(x, dtype=dt), "difference")
+                        m.transform = DifferenceNodeHeightTransform(m, k=k)
+                        H = m.node_heights.detach().to(torch.float64).tolist()
+                        inv = m.transform.inv(m.node_heights[..., n:]).detach().to(torch.float64).tolist()
+                        # exact heights
+                        edges, root, below = G.independent_index(t, n)
+                        ch = {}
+                        for p, c in edges:
+                            ch.setdefault(p, []).append(c)
+                        E = {i: mp.mpf(ages[i]) for i in range(n)}
+                        xs = torch.tensor(x, dtype=dt).to(torch.float64).tolist()
+                        for v in range(n, 2 * n - 1):
+                            a, b = E[ch[v][0]], E[ch[v][1]]
+                            mx = max(a, b)
+                            E[v] = mx + mp.log(mp.e ** ((a - mx) * k) + mp.e ** ((b - mx) * k)) / k + mp.mpf(xs[v - n])
+                        probs = []
+                        if not all(math.isfinite(v) for v in H):
+                            probs.append(f"node heights {H}")
+                        else:
+                            S = max(abs(v) for v in H)
+                            for v in range(n, 2 * n - 1):
+                                if abs(H[v] - float(E[v])) > tol * max(1.0, S):
+                                    probs.append(f"node {v} at {H[v]!r}; exact smooth maximum + increment = {float(E[v])!r}")
+                                    break
+                            if not probs and any(abs(a_ - b_) > tol * max(1.0, S) + 1e-9 * abs(b_) for a_, b_ in zip(inv, xs)):
+                                probs.append(f"inverse returns {inv} for increments {xs}")
+                            probs += [w for _c, w in property_on(m, ages)][:1]
+                    except Exception as e:
+                        probs = [f"raises {type(e).__name__}: {str(e)[:140]}"]
+                    for w in probs[:1]:
+                        record(f"difference:smooth-extreme:{dt}", f"k = {k}, tips {ages} on {G.paren(t)}, increments {x} ({dt}): {w}", rep, (n, 1, 0))
 
 
 def replay_route(obj):
